@@ -111,6 +111,13 @@ class Engine:
             self.unknowns += 1
         return r
 
+    def fallback(self, goal):
+        t = time.time()
+        r, _, _, _ = _strategies(list(goal) + list(self.axioms), 8000)
+        self.solver_time += time.time() - t
+        self.queries += 1
+        return r
+
     def pc(self, feas=False):
         """path condition; feas=True leaves out the definedness side conditions (kind 's'), which are
         typically non-linear: branch feasibility is then checked on a superset of the inputs (sound: it can only add
@@ -146,12 +153,17 @@ class Engine:
                 raise RuntimeError("prefix/trace mismatch (non-deterministic harness?)")
         else:
             r = self.check(*self.pc(feas=True), cond)
+            if r == z3.unknown:
+                r = self.fallback(self.pc(feas=True) + [cond])
             if r == z3.sat:
                 taken = True
             elif r == z3.unsat:
                 taken = False
             else:
-                raise BudgetExceeded("solver returned unknown in decide()")
+                # undecided: explore the branch anyway (sound: can only add paths; a spurious path yields vacuous
+                # obligations or an unreproducible counterexample, never a wrong 'holds')
+                self.notes.append("branch feasibility unknown -> explored")
+                taken = True
         self.trace.append((cond, taken, "d"))
         self._path_cache[cid] = taken
         return taken
@@ -253,12 +265,15 @@ def explore(fn, *, max_paths=20000, budget_s=600.0, timeout_ms=20000, setup=None
                 if r is None:
                     pcs = [cc if tt else z3.Not(cc) for cc, tt, kk in tr[:k] if kk != "s"]
                     r = eng.check(*pcs, z3.Not(c))
+                    if r == z3.unknown:
+                        r = eng.fallback(pcs + [z3.Not(c)])
+                    if r == z3.unknown:
+                        eng.notes.append("branch feasibility unknown -> explored")
+                        r = z3.sat
                     eng._negcache[key] = r
                 if r == z3.sat:
                     nxt = [tt for _, tt, _ in tr[:k]] + [False]
                     break
-                if r == z3.unknown:
-                    raise BudgetExceeded("unknown while backtracking")
         if nxt is None:
             break
         if len(paths) >= max_paths or time.time() - t0 > budget_s:
@@ -414,13 +429,15 @@ class SV:
             return SV(self.e % b)
         # real modulo: python semantics result in [0, m) for m > 0.  Modelled by a
         # fresh integer quotient q with 0 <= v - q*m < m.
+        # real modulo with python semantics (result in [0, m) for m > 0), modelled on the window -m < a < 2m
+        # (values outside the window are outside the model: side condition)
         a, b = _arith(self.e, b)
         eng = Engine.cur
-        q = eng.fresh("modq", I)
-        eng.side(b > 0)
-        r = a - z3.ToReal(q) * b
-        eng.side(z3.And(r >= 0, r < b))
-        return SV(r)
+        eng.side(z3.And(b > 0, a > -b, a < 2 * b))
+        return SV(z3.If(a < 0, a + b, z3.If(a >= b, a - b, a)))
+
+    def __rmod__(self, o):
+        return SV(zval(o)).__mod__(self)
 
     def __neg__(self):
         return SV(-self.e)
@@ -763,9 +780,43 @@ class MultiModel:
         return self.models[-1].eval(e, model_completion=model_completion)
 
 
-def _strategies(goal, timeout_ms):
+def _uf_apps(fs):
+    apps, seen, stack = {}, set(), list(fs)
+    while stack:
+        t = stack.pop()
+        i = t.get_id()
+        if i in seen:
+            continue
+        seen.add(i)
+        if z3.is_app(t):
+            if t.decl().kind() == z3.Z3_OP_UNINTERPRETED and t.num_args() > 0:
+                apps[i] = t
+            stack.extend(t.children())
+    return list(apps.values())
+
+
+def abstract_uf(goal):
+    """replace every uninterpreted-function application by a fresh real variable (functional consistency dropped):
+    a weakening, so `unsat` of the abstraction implies `unsat` of the goal; `sat` means nothing."""
+    apps = _uf_apps(goal)
+    if not apps:
+        return None
+    pairs = [(t, z3.Real("uf!abs!%d" % t.get_id()) if t.sort() == R else z3.Int("uf!abs!%d" % t.get_id())) for t in apps]
+    return [z3.substitute(f, *pairs) for f in goal]
+
+
+def _strategies(goal, timeout_ms, want_model=True):
     """returns (result, model, seconds, backend); several attempts because z3 is not robust on UF+NRA"""
     total = 0.0
+    abstr = abstract_uf(goal)
+    if abstr is not None:
+        try:
+            r, m, dt = _solve(abstr, max(2000, timeout_ms // 4), tactic="qfnra-nlsat")
+            total += dt
+            if r == z3.unsat:
+                return r, None, total, "z3-nlsat(uf-abstracted)"
+        except z3.Z3Exception:
+            pass
     try:
         r, m, dt = _solve(goal, max(2000, timeout_ms // 4), tactic="qfnra-nlsat")
         total += dt
